@@ -928,3 +928,25 @@ def r13_17_containers_are_filled_before_they_are_published(ctx: Ctx) -> RuleResu
             else:
                 rr.fail(f.qual, f"`{unparse(pn)[:60]}` makes the container visible and `{unparse(later)[:60]}` fills it afterwards: a concurrent reader sees a partly built table", ctx.loc(f, pn))
     return rr
+
+
+@rule("C13")
+def r13_18_clones_are_deep(ctx: Ctx) -> RuleResult:
+    """`clone()` exists so that a read-only shared object (the invariant culture) can be copied and the copy changed.  The copy must
+    not share mutable sub-objects with the original (a culture owns a DateTimeFormatInfo and a NumberFormatInfo): every `clone`
+    method in the package returns `copy.deepcopy(self)` (or a constructor call given copies); a shallow `copy.copy(self)` lets a
+    change made to the clone show through the read-only original and through every pattern created with it."""
+    rr = RuleResult("R13.18", "clone() methods copy deeply: no clone shares mutable sub-objects with the object it was made from", min_instances=2)
+    M = ctx.M
+    for f in sorted(set(M.func_of_node.values()), key=lambda x: x.qual):
+        if isinstance(f.node, ast.Lambda) or f.name != "clone" or f.cls is None or not f.mod.rel.startswith("pyoda_time/"):
+            continue
+        rr.inst()
+        calls = [unparse(n.func) for n in own_nodes(f.node) if isinstance(n, ast.Call)]
+        shallow = [t for t in calls if t in ("copy.copy", "copy") or t.endswith(".__copy__")]
+        holds_objects = any(isinstance(n, (ast.Assign, ast.AnnAssign)) and n.value is not None and isinstance(n.value, ast.Call) and M.classes.get(unparse(n.value.func).split(".")[-1].split("[")[0]) for g in f.cls.methods.values() if not isinstance(g.node, ast.Lambda) for n in own_nodes(g.node))
+        if shallow and (holds_objects or "copy.deepcopy" not in calls):
+            rr.fail(f.qual, f"clone() is built on `{shallow[0]}(self)`: the clone shares the original's mutable sub-objects, so changing the clone changes the (possibly read-only, shared) original", ctx.loc(f))
+        else:
+            rr.ok({"clone": f.qual, "via": [t for t in calls if "copy" in t][:2]})
+    return rr
